@@ -171,6 +171,8 @@ class Fn:
             qa, qb = self.coerce(a, ta, FLOAT), self.coerce(b, tb, FLOAT)
             if op in sym:
                 return "(%s %s %s)%%Q" % (qa, sym[op], qb), FLOAT
+            if op is ast.Div and getattr(self, "numpy_div", False):
+                return "(%s / %s)%%Q" % (qa, qb), FLOAT      # the divisor is a numpy scalar in this fragment: inf or nan, never an exception
             if op is ast.Div and isinstance(node.left, ast.Call) and _d(node.left.func) == _d(ast.parse("np.sum", mode="eval").body):
                 return "(%s / %s)%%Q" % (qa, qb), FLOAT      # numpy scalar / number: inf or nan, never an exception
             if op is ast.Div:
@@ -1102,6 +1104,41 @@ def frag_tauexp_search(fn):
     return [search, ast.Raise(exc=ast.Call(func=ast.Name(id="KeyError", ctx=ast.Load()), args=[], keywords=[]), cause=None)]
 
 
+def _window_if(fn):
+    want_iter = _d(ast.parse("range(1, w_max)", mode="eval").body)
+    probe = _d(ast.parse("g_w[n - 1] < 0", mode="eval").body)
+    found = [x for x in ast.walk(fn) if isinstance(x, ast.For) and _d(x.iter) == want_iter and isinstance(x.target, ast.Name) and x.target.id == "n"
+             and len(x.body) == 1 and isinstance(x.body[0], ast.If) and probe in _d(x.body[0].test)]
+    if len(found) != 1:
+        raise TranslateError("gamma_method: the automatic-windowing loop was not found exactly once")
+    return found[0].body[0]
+
+
+def _stored(cond, target_src, what):
+    import copy
+    hits = [st for st in cond.body if isinstance(st, ast.Assign) and len(st.targets) == 1
+            and _d(st.targets[0]).replace("Store()", "Load()") == _d(ast.parse(target_src, mode="eval").body)]
+    if len(hits) != 1:
+        raise TranslateError("gamma_method: %s is not assigned exactly once in the windowing branch" % what)
+    return copy.deepcopy(hits[0].value)
+
+
+def frag_window_tauint(fn):
+    """the value stored as e_tauint[e_name] when the automatic window is found"""
+    v = _stored(_window_if(fn), "self.e_tauint[e_name]", "e_tauint")
+    ren = _Rename({"self.e_n_tauint[e_name]": "nt"})
+    return [ast.fix_missing_locations(ast.Return(value=ren.visit(v)))]
+
+
+def frag_window_dvalue_sq(fn):
+    """the radicand of the value stored as e_dvalue[e_name] (= np.sqrt(radicand)) when the automatic window is found"""
+    v = _stored(_window_if(fn), "self.e_dvalue[e_name]", "e_dvalue")
+    if not (isinstance(v, ast.Call) and _d(v.func) == _d(ast.parse("np.sqrt", mode="eval").body) and len(v.args) == 1 and not v.keywords):
+        raise TranslateError("gamma_method: e_dvalue is not np.sqrt(...)")
+    ren = _Rename({"self.e_tauint[e_name]": "tauint", "e_gamma[e_name]": "gamma"})
+    return [ast.fix_missing_locations(ast.Return(value=ren.visit(v.args[0])))]
+
+
 def frag_window_search(fn):
     """Obs.gamma_method: the automatic-windowing loop `for n in range(1, w_max): if g_w[n - 1] < 0 or n >= w_max - 1: ...; break`.
     The fragment is the search itself: which n the loop stops at (its body up to `break` is the bookkeeping of that n)."""
@@ -1222,6 +1259,10 @@ SIGS = [
     dict(coq="gamma_method_tauexp_search", py="Obs.gamma_method", fragment=frag_tauexp_search, params=[], ret=INT,
          extra_params=[("v_crit", "(Z -> bool)"), ("v_w_max", INT)], env={"w_max": INT},
          aliases={"(self.e_rho[e_name][n] - self.N_sigma[e_name] * self.e_drho[e_name][n]) < 0": ("(v_crit v_n)", BOOL)}),
+    dict(coq="gamma_method_window_tauint", py="Obs.gamma_method", fragment=frag_window_tauint, params=[], ret=FLOAT, numpy_div=True,
+         extra_params=[("v_nt", ARR), ("v_n", INT), ("v_e_N", INT)], env={"nt": ARR, "n": INT, "e_N": INT}),
+    dict(coq="gamma_method_window_dvalue_sq", py="Obs.gamma_method", fragment=frag_window_dvalue_sq, params=[], ret=FLOAT, numpy_div=True,
+         extra_params=[("v_tauint", FLOAT), ("v_gamma", ARR), ("v_e_N", INT)], env={"tauint": FLOAT, "gamma": ARR, "e_N": INT}),
     dict(coq="_reduce_deltas", py="_reduce_deltas", params=[("deltas", ARR), ("idx_old", IDL), ("idx_new", IDL)], ret=ARR),
     dict(coq="covariance_calc_gamma", py="_covariance_element.calc_gamma", needs=["_reduce_deltas"],
          params=[("deltas1", ARR), ("deltas2", ARR), ("idx1", IDL), ("idx2", IDL), ("new_idx", IDL)], ret=FLOAT),
@@ -1357,6 +1398,7 @@ def translate_source(src, sigs=None, only=None, sources=None):
         stores = {_d(ast.parse(e, mode="eval").body): n for e, n in (sg.get("stores") or {}).items()}
         iter_aliases = {_d(ast.parse(e, mode="eval").body): v for e, v in (sg.get("iter_aliases") or {}).items()}
         f = Fn(sg["coq"], sg["params"], sg["ret"], aliases, done, sg.get("hints"), stores, iter_aliases, sg.get("unbound"))
+        f.numpy_div = bool(sg.get("numpy_div"))
         env = {p: ty for p, ty in sg["params"] if ty is not None}
         env.update(sg.get("env", {}))
         fin = None
